@@ -264,7 +264,7 @@ func (tr *Tools) ParseToolLine(mklines *MkLines, mkline *MkLine, fromInfrastruct
 			}
 
 		case "TOOLS_ALIASES.*":
-			if containsExpr(varparam) {
+			if containsExpr(varparam) || !tr.IsValidToolName(varparam) {
 				break
 			}
 
